@@ -144,10 +144,11 @@ def instrument(scratch, obligations, extra_tests=None):
 class Watchdog(threading.Thread):
     """Kills cbmc processes whose RSS exceeds the limit (the harness then counts as UNDECIDED)."""
 
-    def __init__(self):
+    def __init__(self, scratch=""):
         super().__init__(daemon=True)
         self.stop = False
         self.killed = []
+        self.scratch = scratch
 
     def run(self):
         while not self.stop:
@@ -159,8 +160,12 @@ class Watchdog(threading.Thread):
                         continue
                     pid, rss, comm, args = parts
                     if comm.startswith("cbmc") and int(rss) > RSS_LIMIT_KB:
-                        self.killed.append(args[-200:])
-                        os.kill(int(pid), signal.SIGKILL)
+                        # protect the box from any runaway cbmc, but only report our own
+                        if self.scratch and self.scratch in args:
+                            self.killed.append(args[-200:])
+                            os.kill(int(pid), signal.SIGKILL)
+                        elif int(rss) > 2 * RSS_LIMIT_KB:
+                            os.kill(int(pid), signal.SIGKILL)
             except Exception:
                 pass
             time.sleep(2)
@@ -232,6 +237,11 @@ def classify_check(chk):
         return "cover", set()
     m = TAG_RE.search(desc)
     tags = set(m.group(1).split(",")) if m else set()
+    locf = (chk.get("location") or {}).get("file", "") or ""
+    if not tags and "/verif_harness/" in locf:
+        # an automatically generated check (overflow, pointer, unwrap) failing inside harness / spec code is a
+        # defect of the harness, not of /repo: never a violation
+        return "harness", set()
     return "property", tags
 
 
@@ -349,7 +359,7 @@ def check_property(prop, tier, only, keep, jobs):
     known = []
     undecided = []
     scratch = make_scratch()
-    wd = Watchdog()
+    wd = Watchdog(scratch)
     wd.start()
     canary_ok = {}
     try:
@@ -388,7 +398,7 @@ def check_property(prop, tier, only, keep, jobs):
                 continue
             by_h = {r["harness_id"]: r for r in data.get("verification_results", {}).get("results", [])}
             pd = {r["harness_id"]: r["property_details"] for r in data.get("property_details", [])}
-            stats = {r["harness_id"]: r.get("cbmc_stats", {}) for r in data.get("cbmc", [])}
+            stats = {r["harness_id"]: (r.get("cbmc_stats") or {}) for r in data.get("cbmc", [])}
             for o in group:
                 hid = module_path(o["anchor"]) + "::" + o["harness"]
                 r = by_h.get(hid)
@@ -412,7 +422,7 @@ def check_property(prop, tier, only, keep, jobs):
                 d = pd.get(hid, {})
                 res["checks"] = d.get("total_properties", len(r.get("checks", [])))
                 res["covers"] = d.get("satisfied", 0)
-                res["solver_s"] = stats.get(hid, {}).get("runtime_decision_procedure_s")
+                res["solver_s"] = (stats.get(hid) or {}).get("runtime_decision_procedure_s")
                 failed = [c_ for c_ in r.get("checks", []) if c_.get("status") in ("Failure", "FAILURE")]
                 unsat_cover = [c_ for c_ in r.get("checks", []) if c_.get("category") == "cover"
                                and c_.get("status") not in ("Satisfied", "SATISFIED", "Success")]
